@@ -198,7 +198,11 @@ pub fn check_items(c: &ItemsCase, choices: &[u32], acc: &mut Acc) {
 
 // ---------- family 2: members ----------
 
-const CONTAINERS: [&str; 4] = ["struct-fields", "unit-enum-variants", "alg-enum-variants", "struct-variant-fields"];
+const CONTAINERS: [&str; 5] = [
+    "struct-fields", "unit-enum-variants", "alg-enum-variants", "struct-variant-fields",
+    // an enum without tag / content whose data-carrying variants (M0, M2) are skipped: what remains is a unit enum
+    "enum-whose-data-variants-are-skipped",
+];
 
 #[derive(Clone, Debug)]
 pub struct MembersCase {
@@ -237,6 +241,24 @@ fn member_fields(c: &MembersCase) -> Vec<Field> {
 pub fn members_program(c: &MembersCase) -> File {
     let it = match c.container {
         "struct-fields" => Item::strukt("Outer", member_fields(c)),
+        "enum-whose-data-variants-are-skipped" => {
+            let kinds: [VKind; 3] = [VKind::Newtype(Ty::Prim("u32")), VKind::Unit, VKind::Struct(vec![Field::new("x", Ty::Prim("bool"))])];
+            let mut vs: Vec<Variant> = ["M0", "M1", "M2"]
+                .iter()
+                .enumerate()
+                .map(|(i, n)| {
+                    let mut v = Variant::new(n, kinds[i].clone());
+                    v.skip = c.skips[i];
+                    v.style = c.style;
+                    if c.renamed {
+                        v.rename = Some(format!("rn{i}"));
+                    }
+                    v
+                })
+                .collect();
+            vs.push(Variant::new("Keep", VKind::Unit));
+            Item::new("Outer", IKind::Enum { variants: vs, tag: None, content: None })
+        }
         "unit-enum-variants" | "alg-enum-variants" => {
             let kinds: [VKind; 3] = if c.container == "unit-enum-variants" {
                 [VKind::Unit, VKind::Unit, VKind::Unit]
@@ -271,6 +293,11 @@ pub fn members_program(c: &MembersCase) -> File {
 }
 
 pub fn check_members(c: &MembersCase, choices: &[u32], acc: &mut Acc) {
+    if c.container == "enum-whose-data-variants-are-skipped" && !(c.skips[0].skipped() && c.skips[2].skipped()) {
+        // with a data-carrying variant left the enum needs tag / content: another program, judged by C08
+        acc.out_of_scope += 1;
+        return;
+    }
     let file = members_program(c);
     let cfg = Cfg::plain();
     let expected: Vec<String> = (0..3)
@@ -310,7 +337,7 @@ pub fn check_members(c: &MembersCase, choices: &[u32], acc: &mut Acc) {
     let observed: Option<Vec<String>> = match c.container {
         "struct-fields" => ok.out.structs().find(|s| s.name == "Outer").map(|s| s.fields.iter().map(|f| f.wire.clone()).collect()),
         "unit-enum-variants" => ok.out.enums().find(|e| e.name == "Outer").map(|e| e.variants.iter().map(|v| v.wire.clone()).collect()),
-        "alg-enum-variants" => ok.out.enums().find(|e| e.name == "Outer").map(|e| e.variants.iter().map(|v| v.wire.clone()).filter(|w| w != "Keep").collect()),
+        "alg-enum-variants" | "enum-whose-data-variants-are-skipped" => ok.out.enums().find(|e| e.name == "Outer").map(|e| e.variants.iter().map(|v| v.wire.clone()).filter(|w| w != "Keep").collect()),
         _ => find_variant_fields(&ok.out, c.lang),
     };
     let base = json!({"choices": choices, "lang": c.lang.name(), "container": c.container, "skip_pattern": pat, "source": ok.source, "output": ok.text, "expected_members": expected});
